@@ -145,7 +145,7 @@ def norm_ws(t):
     return re.sub(r'\s+', ' ', t).strip()
 
 
-def parse_items(s, start=0, end=None):
+def parse_items(s, start=0, end=None, limit=None):
     """parse the items of a container s[start:end] (file, impl body, trait body, mod body)"""
     n = len(s) if end is None else end
     items = []
@@ -289,6 +289,8 @@ def parse_items(s, start=0, end=None):
         items.append(Item(kind=kind, name=name, begin=begin, sig_begin=sig_begin, body_open=body_open,
                           end=endp, attrs=attrs, src=s, vis=vis))
         i = endp
+        if limit is not None and len(items) >= limit:
+            break
     return items
 
 
@@ -558,7 +560,7 @@ def find_returns(body):
 
 def fn_signature_parts(text):
     """text = fn item text from `fn`/`pub fn` ... to end. returns (sig_end=body_open index, ret_span or None, where_pos or None)"""
-    it = parse_items(text)[0]
+    it = parse_items(text, limit=1)[0]
     bo = it.body_open
     # locate `->` at depth 0 after the parameter list
     toks = list(sig_tokens(text, 0, bo if bo is not None else it.end))
